@@ -296,12 +296,12 @@ func (st *State) shareAddr(a uint64) {
 }
 
 func (st *State) scanWord(o *Obj, off int) {
-	if o.bytes == nil {
+	if o.bytes == nil && o.sparse == nil {
 		return
 	}
 	var v uint64
 	for i := 7; i >= 0; i-- {
-		b := o.bytes[off+i]
+		b := o.getByte(off + i)
 		if b == nil {
 			v <<= 8
 			continue
